@@ -154,6 +154,14 @@ func (u *c11Up) ServeDNS(ctx context.Context, rw dnsserver.ResponseWriter, req *
 }
 
 func runC11(s *kernel.Sim, cfg string) {
+	if cfg == "conc" {
+		runC11Concurrent(s)
+
+		return
+	}
+	// Sequential history: the yields of the instrumented storage are not
+	// scheduling points here.
+	s.Uninstall()
 	t := s.T
 	dir, err := os.MkdirTemp(os.TempDir(), "fltsim")
 	if err != nil {
@@ -429,3 +437,125 @@ func c11TXT(s *kernel.Sim, w *world.World, up *c11Up, models map[filter.ID]listM
 
 var _ = agd.ProtoDNS
 var _ = dnsmsg.DefaultEDNSUDPSize
+
+// runC11Concurrent: hash-prefix lookups overlapping list resets.  The storage
+// swaps its index while lookups run; every answer must be the complete answer
+// for one of the list versions that were in force at some instant of the
+// lookup — never a mixture.  Yields are inserted before every load and store
+// of the storage's index pointer.
+func runC11Concurrent(s *kernel.Sim) {
+	t := s.T
+	nVer := t.Range(2, 4, "versions")
+	texts := make([]string, nVer)
+	models := make([]listModel, nVer)
+	for i := range texts {
+		texts[i] = genListText(t)
+		models[i] = parseList(texts[i])
+	}
+
+	s.Uninstall()
+	strg, err := hashprefix.NewStorage(texts[0])
+	if err != nil {
+		panic(err)
+	}
+	m := hashprefix.NewMatcher(map[string]*hashprefix.Storage{suffixSB: strg})
+	s.Install()
+
+	clock := 0
+	tick := func() int { clock++; return clock }
+	// start[v] / end[v]: stamps around the reset that installed version v.
+	start := []int{0}
+	end := []int{0}
+	cur := []int{0} // version index installed by the k-th reset
+
+	s.Go("reset", func() {
+		n := t.Range(1, 4, "resets")
+		for k := 0; k < n; k++ {
+			s.Yield("before-reset")
+			v := t.Choose(nVer, "which-version")
+			start = append(start, tick())
+			cur = append(cur, v)
+			end = append(end, 0)
+			idx := len(end) - 1
+			if _, rerr := strg.Reset(texts[v]); rerr != nil {
+				s.Failf("C11/reset-error", "reset of a well-formed list failed", "%v", rerr)
+
+				return
+			}
+			end[idx] = tick()
+			s.Logf("reset #%d installs version %d [%d,%d]", idx, v, start[idx], end[idx])
+		}
+	})
+
+	nLook := t.Range(1, 2, "lookup-tasks")
+	for li := 0; li < nLook; li++ {
+		name := fmt.Sprintf("lookup%d", li)
+		cnt := t.Range(1, 6, "lookups")
+		var hosts [][]string
+		for j := 0; j < cnt; j++ {
+			var prefixes []string
+			for k, np := 0, t.Range(1, 4, "prefixes"); k < np; k++ {
+				sum := sha256.Sum256([]byte(kernel.Pick(t, nameUniverse, "prefix-of")))
+				prefixes = append(prefixes, hex.EncodeToString(sum[:])[:4])
+			}
+			hosts = append(hosts, prefixes)
+		}
+		s.Go(name, func() {
+			for _, prefixes := range hosts {
+				s.Yield("before-lookup")
+				inv := tick()
+				got, matched, merr := m.MatchByPrefix(context.Background(), strings.Join(prefixes, ".")+suffixSB)
+				ret := tick()
+				if merr != nil || !matched {
+					s.Failf("C11/lookup-error", "well-formed hash-prefix lookup failed", "%v matched=%v", merr, matched)
+
+					return
+				}
+				gs := map[string]bool{}
+				for _, g := range got {
+					gs[g] = true
+				}
+				var gotU []string
+				for g := range gs {
+					gotU = append(gotU, g)
+				}
+				sort.Strings(gotU)
+
+				// Versions in force at some instant of [inv, ret].
+				var tried []string
+				ok := false
+				for k := range cur {
+					began := start[k]
+					over := 0 // stamp at which the next reset had certainly replaced it
+					if k+1 < len(cur) {
+						over = end[k+1]
+					}
+					if began > ret || (over != 0 && over < inv) {
+						continue
+					}
+					want := models[cur[k]].hashes(prefixes)
+					tried = append(tried, fmt.Sprintf("reset#%d(v%d)=%v", k, cur[k], want))
+					if fmt.Sprint(want) == fmt.Sprint(gotU) {
+						ok = true
+					}
+				}
+				s.Logf("%s: %v [%d,%d] -> %d hashes, candidates %d, ok=%v", name, prefixes, inv, ret, len(gotU), len(tried), ok)
+				if len(tried) > 1 {
+					s.Probe("lookup-overlapped-reset")
+					s.MarkNontrivial()
+				}
+				if !ok {
+					s.Failf("C11/hashes-across-reset", "hash-prefix answer is the answer of no list version in force during the lookup",
+						"prefixes %v: got %v; versions in force: %v", prefixes, gotU, tried)
+
+					return
+				}
+			}
+		})
+	}
+
+	s.Run()
+	if s.Stuck {
+		s.Failf("C11/stuck", "lookup or reset cannot make progress", "deadlock")
+	}
+}
